@@ -354,7 +354,7 @@ class Func:
                         E.append((b['id'], s, ('case', tuple(self._case_vals(lab)), cond)))
                     else:
                         E.append((b['id'], s, ('default', cond, tuple(allvals))))
-            elif len(succ) == 2 and 'cond' in b:
+            elif len(succ) == 2 and b.get('cond') is not None:
                 for i, s in enumerate(succ):
                     if s is None or s < 0:
                         continue
